@@ -64,7 +64,7 @@ def reset_process_globals():
         pass
 
 
-def execute(check, idx, seed, tier, tape=None, cap_s=120):
+def execute(check, idx, seed, tier, tape=None, cap_s=600):
     """Run one simulated run of ``check``; returns a JSON-able dict."""
     source = TapeSource(tape) if tape is not None else RandomSource(derive_seed(check.ID, seed, idx))
     ch = Chooser(source)
